@@ -248,7 +248,7 @@ def one_syncgroup(args):
     stats = {}
     problems = k8lib.check_liveness(run, sc)
     if not problems:
-        problems = k8lib.check_group_sync(run, sc, stats)
+        problems = k8lib.check_group_sync(run, sc, stats)           # concrete failing inputs first
         problems += k8lib.check_group_model(run, model, stats)
     res = {'sc_seed': sc_seed, 'sched': sched, 'problems': problems, 'stats': stats, 'done': run.done, 'ngroups': len(run.groups)}
     if problems:
@@ -273,8 +273,13 @@ def run_sync_groups(rep, tier, seed):
             if p['kind'] in LIVENESS_KINDS: continue        # C09's business
             if reported < 3:
                 reported += 1
-                rep.violation({'kind': 'K8-' + p['kind'], 'problem': p, 'scenario': r['scenario'], 'schedule': r['sched'],
-                               'scenario_seed': r['sc_seed'], 'history': r['history'], 'groups': r.get('groups')})
+                only_corr = p['kind'] in ('group-differs-from-model', 'group-model-error')
+                obj = {'kind': 'K8-' + p['kind'], 'problem': p, 'scenario': r['scenario'], 'schedule': r['sched'],
+                       'scenario_seed': r['sc_seed'], 'history': r['history'], 'groups': r.get('groups')}
+                if only_corr:
+                    # a different (e.g. smaller) group is not by itself a durability failure: the sync oracle above is the search for one
+                    obj['correspondence_that_no_longer_checks'] = 'Group.v (model of ldb_build_batch_group) vs the observed group commits: theorems Properties_C02b.*'
+                rep.violation(obj, suffix='no-failing-input-found' if only_corr else '')
             else:
                 rep.violations.append(None)
     rep.cov['k8_sync_groups'] = dict(tot, runs=len(results))
